@@ -9,6 +9,10 @@ use proptest::strategy::BoxedStrategy;
 
 pub mod c02;
 pub mod c03;
+pub mod c04;
+pub mod c05;
+pub mod c06;
+pub mod common;
 
 impl Checker for Box<dyn Checker> {
     fn step(&mut self, cx: &StepCx, out: &mut CaseResult) {
